@@ -19,6 +19,8 @@ def plan(tier):
         Q(P, 3, ['-o', 'v', '--m=w'], second=['****'], wit=W2[2:]),
         Q(P, 5, ['**'], second=['--o=c', '-t'], env={0: '**', 2: '**'}, wit=W2[:1] + W2[2:]),   # environment-sourced values must not stick either
         Q(P, 5, ['--o=c'], second=['**'], env={0: '**', 1: '**'}, wit=W2[:2]),
+        Q(P, 6, ['***'], second=[], wit=W2[:1] + W2[2:]),           # defaults used by the first parse must still be there for the second
+        Q(P, 6, [], second=['***'], wit=W2[:2]),
     ]
     if th:
         qs += [Q(P, 1, ['***'], second=['***'], wit=W2, **H), Q(P, 2, ['***'], second=['***'], wit=W2, **H), Q(P, 3, ['***', '**'], second=['***', '**'], wit=W2, **H),
